@@ -6,12 +6,12 @@ open Irismod.Sdk Irismod.GoSem
 def AddBalance_balance_1 (read_k_GetBalance_ctx_denomID_mtID_addr : Nat) : Option (Nat) := do
   some read_k_GetBalance_ctx_denomID_mtID_addr
 
-def AddBalance_balance_2 (balance : Nat) (amount : Nat) : Option (Nat) := do
-  some (U64_Add balance amount)
-
 /-- rejects when true: `math.MaxUint64 - balance < amount` -/
 def AddBalance_guard_1 (balance : Nat) (amount : Nat) : Option (Bool) := do
   some (decide ((U64_Sub (18446744073709551615 : Nat) balance) < amount))
+
+def AddBalance_balance_2 (balance : Nat) (amount : Nat) : Option (Nat) := do
+  some (U64_Add balance amount)
 
 def SubBalance_balance_1 (read_k_GetBalance_ctx_denomID_mtID_addr : Nat) : Option (Nat) := do
   some read_k_GetBalance_ctx_denomID_mtID_addr
@@ -22,12 +22,12 @@ def SubBalance_balance_2 (balance : Nat) (amount : Nat) : Option (Nat) := do
 def IncreaseMTSupply_supply_1 (read_k_GetMTSupply_ctx_denomID_mtID : Nat) : Option (Nat) := do
   some read_k_GetMTSupply_ctx_denomID_mtID
 
-def IncreaseMTSupply_supply_2 (supply : Nat) (amount : Nat) : Option (Nat) := do
-  some (U64_Add supply amount)
-
 /-- rejects when true: `math.MaxUint64 - supply < amount` -/
 def IncreaseMTSupply_guard_1 (supply : Nat) (amount : Nat) : Option (Bool) := do
   some (decide ((U64_Sub (18446744073709551615 : Nat) supply) < amount))
+
+def IncreaseMTSupply_supply_2 (supply : Nat) (amount : Nat) : Option (Nat) := do
+  some (U64_Add supply amount)
 
 def decreaseMTSupply_supply_1 (read_k_GetMTSupply_ctx_denomID_mtID : Nat) : Option (Nat) := do
   some read_k_GetMTSupply_ctx_denomID_mtID
@@ -39,6 +39,6 @@ def decreaseMTSupply_supply_2 (supply : Nat) (amount : Nat) : Option (Nat) := do
 def untranslated : List String := []
 
 /-- names of the translated definitions -/
-def translated : List String := ["AddBalance_balance_1(read_k_GetBalance_ctx_denomID_mtID_addr)", "AddBalance_balance_2(balance,amount)", "AddBalance_guard_1(balance,amount)", "SubBalance_balance_1(read_k_GetBalance_ctx_denomID_mtID_addr)", "SubBalance_balance_2(balance,amount)", "IncreaseMTSupply_supply_1(read_k_GetMTSupply_ctx_denomID_mtID)", "IncreaseMTSupply_supply_2(supply,amount)", "IncreaseMTSupply_guard_1(supply,amount)", "decreaseMTSupply_supply_1(read_k_GetMTSupply_ctx_denomID_mtID)", "decreaseMTSupply_supply_2(supply,amount)"]
+def translated : List String := ["AddBalance_balance_1(read_k_GetBalance_ctx_denomID_mtID_addr)", "AddBalance_guard_1(balance,amount)", "AddBalance_balance_2(balance,amount)", "SubBalance_balance_1(read_k_GetBalance_ctx_denomID_mtID_addr)", "SubBalance_balance_2(balance,amount)", "IncreaseMTSupply_supply_1(read_k_GetMTSupply_ctx_denomID_mtID)", "IncreaseMTSupply_guard_1(supply,amount)", "IncreaseMTSupply_supply_2(supply,amount)", "decreaseMTSupply_supply_1(read_k_GetMTSupply_ctx_denomID_mtID)", "decreaseMTSupply_supply_2(supply,amount)"]
 
 end Irismod.Gen.PureMt
